@@ -236,51 +236,345 @@ theorem impossible_is_merge_error (cfg : Config) (l r : Node) (h : Impossible l 
     | set ra rms => exact absurd h (by simp [Impossible])
     | scalar ra v => exact absurd h (by simp [Impossible])
 
-/-! ## Key order and key set of a deep hash merge -/
+/-! ## Key order, key set and per-key content of a deep hash merge
 
-/-- **merge_order_ok_partial** (left-hand half of `OrderOK`, proved in full generality).
-FULL STATEMENT: `mergeDicts env (.map la l) par r = .ok (.map a m) → OrderOK l r m`.
-PROVED HERE: the first conjunct of `OrderOK` — the keys of `l` appear in `m` in their original
-relative order (exactly: the sub-list of `m`'s keys that are keys of `l` *is* `l`'s key list), for
-every configuration, every `l` and `r`.  MISSING: the second conjunct (keys only in `r` appear in
-`r`'s order); it needs the positional invariant "no right-only key sits at or after `buffer_pos`",
-not finished in this round.  The correspondence run checks both halves on the real code and
-compares the exact interleaving with the model. -/
-theorem merge_order_ok_partial (env : Env) (la : Option Str) (l : List (Key × Node)) (par : Node)
+`mergeDicts env (.map la l) par r` is `_merge_dicts(lhs, rhs)`: the DEEP merge of the right-hand
+mapping `par` (entries `r`) into the left-hand mapping with entries `l` — at the root
+(`root_hash_merge`) and, recursively, under every key present on both sides
+(`mergeVal_map_eq_mergeDicts`).  A Python `dict` has no duplicate keys; the model's entry lists can,
+so the theorems that speak about right-only keys carry `(keys r).Nodup` (shown necessary below). -/
+
+/-- **lhs_order_kept** (left-hand half of `OrderOK`, no hypothesis on `r`): the sub-list of the
+merged mapping's keys that are keys of `l` *is* `l`'s key list — left-hand keys keep their relative
+order (and multiplicity) under every configuration. -/
+theorem lhs_order_kept (env : Env) (la : Option Str) (l : List (Key × Node)) (par : Node)
     (r : List (Key × Node)) (m : Node) (h : mergeDicts env (.map la l) par r = .ok m) :
-    ∃ a es, m = .map a es ∧ (keys es).filter (fun k => (keys l).contains k) = keys l := by
-  unfold mergeDicts dictWrap at h
-  simp only at h
-  cases hl : dictLoop env par r ⟨l, [], 0⟩ with
-  | error e => rw [hl] at h; cases h
-  | ok st =>
-    rw [hl] at h
-    cases h
-    refine ⟨la, _, rfl, ?_⟩
-    have hinv : InvL (keys l) ⟨l, [], 0⟩ := by
-      refine ⟨?_, by intro kv hkv; cases hkv⟩
-      simp only
+    ∃ es, m = .map la es ∧ (keys es).filter (fun k => (keys l).contains k) = keys l := by
+  obtain ⟨st, hl, rfl⟩ := mergeDicts_shape env la l par r m h
+  refine ⟨_, rfl, ?_⟩
+  have hinv : InvL (keys l) ⟨l, [], 0⟩ := by
+    refine ⟨?_, by intro kv hkv; cases hkv⟩
+    simp only
+    apply List.filter_eq_self.mpr
+    intro k hk; simpa using hk
+  have := dictLoop_InvL env par (keys l) r _ _ hl hinv
+  simp only [keys, List.map_append, List.filter_append] at this ⊢
+  have hb : (st.buffer.map (·.1)).filter (fun k => (l.map (·.1)).contains k) = [] := by
+    apply List.filter_eq_nil_iff.mpr
+    intro k hk
+    obtain ⟨kv, hkv, rfl⟩ := List.mem_map.mp hk
+    simpa [keys] using this.2 kv hkv
+  rw [hb, List.append_nil]; exact this.1
+
+/-- **merge_order_ok.**  For every configuration, every left-hand mapping `l` and every right-hand
+mapping `r` (without duplicate keys — a Python `dict`), a successful deep hash merge yields a
+mapping `es` with `OrderOK l r es`: the keys of `l` appear in `es` in their original relative order,
+**and the keys only in `r` appear in `es` in `r`'s relative order** (exactly: the sub-list of `es`'s
+keys that are not keys of `l` *is* the sub-list of `r`'s keys that are not keys of `l`).  The
+right-only half rests on the loop invariant `InvR`: no right-only key sits at or after
+`buffer_pos`, so inserting the buffer at `buffer_pos` puts it behind every right-only key already
+placed. -/
+theorem merge_order_ok (env : Env) (la : Option Str) (l : List (Key × Node)) (par : Node)
+    (r : List (Key × Node)) (m : Node) (h : mergeDicts env (.map la l) par r = .ok m)
+    (hr : (keys r).Nodup) :
+    ∃ es, m = .map la es ∧ OrderOK l r es := by
+  obtain ⟨es, hm, hleft⟩ := lhs_order_kept env la l par r m h
+  obtain ⟨st, hl, hm'⟩ := mergeDicts_shape env la l par r m h
+  subst hm'
+  cases hm
+  refine ⟨_, rfl, hleft, ?_⟩
+  have hinv : InvR (keys l) ⟨l, [], 0⟩ := by
+    refine ⟨⟨?_, by intro kv hkv; cases hkv⟩, ?_⟩
+    · simp only
       apply List.filter_eq_self.mpr
       intro k hk; simpa using hk
-    have := dictLoop_InvL env par (keys l) r _ _ hl hinv
-    simp only [keys, List.map_append, List.filter_append] at this ⊢
-    have hb : (st.buffer.map (·.1)).filter (fun k => (l.map (·.1)).contains k) = [] := by
-      apply List.filter_eq_nil_iff.mpr
-      intro k hk
-      obtain ⟨kv, hkv, rfl⟩ := List.mem_map.mp hk
-      simpa [keys] using this.2 kv hkv
-    rw [hb, List.append_nil]; exact this.1
+    · intro k hk; simpa using hk
+  have := dictLoop_InvR env par (keys l) r _ _ hl hinv hr (by
+    intro k _ hL
+    refine ⟨by simpa using hL, by simp [keys]⟩)
+  rw [this]
+  have h0 : (keys l).filter (fun k => !(keys l).contains k) = [] := by
+    apply List.filter_eq_nil_iff.mpr
+    intro k hk; simpa using hk
+  simp only [h0, List.nil_append]
+  simp [keys]
 
-/-- **hash_deep_keys** (left-hand inclusion) / **lhs_only_content_preserved** (keys): every key of
-the left-hand mapping is a key of the merged mapping. -/
+/-- `(keys r).Nodup` is needed for the right-only half: with the key `x` twice in the right-hand
+entry list (impossible for a `dict`) the second `x` is merged into the first, already flushed one. -/
+example :
+    let l := [(Key.str "b".toList, Node.scalar none (.int 1))]
+    let r := [(Key.str "x".toList, Node.scalar none (.int 1)), (.str "b".toList, .scalar none (.int 2)),
+       (.str "x".toList, .scalar none (.int 3))]
+    let es := [(Key.str "b".toList, Node.scalar none (.int 2)), (.str "x".toList, .scalar none (.int 3))]
+    mergeDicts (prepare {} (.scalar none .null)) (.map none l) (.scalar none .null) r = .ok (.map none es) ∧
+    (keys es).filter (fun k => !(keys l).contains k) = [.str "x".toList] ∧
+    (keys r).filter (fun k => !(keys l).contains k) = [.str "x".toList, .str "x".toList] := by
+  decide +kernel
+
+/-- **hash_deep_keys** (both inclusions, no hypothesis on `l` or `r`): the key set of a deep hash
+merge is the union of the two key sets. -/
+theorem hash_deep_keys (env : Env) (la : Option Str) (l : List (Key × Node)) (par : Node)
+    (r : List (Key × Node)) (m : Node) (h : mergeDicts env (.map la l) par r = .ok m) :
+    ∃ es, m = .map la es ∧ ∀ k, k ∈ keys es ↔ k ∈ keys l ∨ k ∈ keys r := by
+  obtain ⟨st, hl, rfl⟩ := mergeDicts_shape env la l par r m h
+  refine ⟨_, rfl, fun k => ?_⟩
+  rw [dictLoop_mem_keys env par k r _ _ hl]
+  simp [keys]
+
+/-- Every left-hand key survives (one inclusion of `hash_deep_keys`, kept under its old name). -/
 theorem lhs_keys_kept (env : Env) (la : Option Str) (l : List (Key × Node)) (par : Node)
     (r : List (Key × Node)) (m : Node) (h : mergeDicts env (.map la l) par r = .ok m) :
     ∃ a es, m = .map a es ∧ ∀ k ∈ keys l, k ∈ keys es := by
-  obtain ⟨a, es, hm, hf⟩ := merge_order_ok_partial env la l par r m h
-  refine ⟨a, es, hm, ?_⟩
+  obtain ⟨es, hm, hk⟩ := hash_deep_keys env la l par r m h
+  exact ⟨la, es, hm, fun k hkl => (hk k).mpr (.inl hkl)⟩
+
+/-- **lhs_only_content_preserved** (keys, values and order; no hypothesis on `l` or `r`): left-hand
+content that the right-hand mapping does not name keeps its value — `es.get(k) = l.get(k)` for every
+key `k` that is not a key of `r` — and (`lhs_order_kept`) the left-hand keys keep their relative
+order. -/
+theorem lhs_only_content_preserved (env : Env) (la : Option Str) (l : List (Key × Node)) (par : Node)
+    (r : List (Key × Node)) (m : Node) (h : mergeDicts env (.map la l) par r = .ok m) :
+    ∃ es, m = .map la es ∧ (∀ k, k ∉ keys r → lookupKey k es = lookupKey k l) ∧
+      (keys es).filter (fun k => (keys l).contains k) = keys l := by
+  obtain ⟨es, hm, hleft⟩ := lhs_order_kept env la l par r m h
+  obtain ⟨st, hl, hm'⟩ := mergeDicts_shape env la l par r m h
+  subst hm'
+  cases hm
+  refine ⟨_, rfl, ?_, hleft⟩
   intro k hk
-  rw [← hf] at hk
-  exact (List.mem_filter.mp hk).1
+  have := dictLoop_look_notin env par k r _ _ hl (Disj_nil _ _) hk
+  simpa [look] using this
+
+/-- **merge_content_eq_spec** (deep hash merges, per-key lookup characterisation).  For every
+configuration, a successful `_merge_dicts` of a right-hand mapping `r` (no duplicate keys) into `l`
+yields a mapping `es` whose content is, key by key:
+* `k` not in `r`: `es.get(k) = l.get(k)` (absent stays absent, present keeps its value);
+* `k` in `r` with value `rv`: `Spec.Merged env par k (l.get(k)) rv (es.get(k))` — only in `r`: `rv`;
+  in both: the left value under LEFT, `rv` under RIGHT, else the recursive merge `mergeVal` of the
+  two values (LEFT/RIGHT/else is the policy of `rv`'s own kind or a rule for that node).
+Together with `hash_deep_keys` (key set = union) and `merge_order_ok` this determines the merged
+mapping up to the interleaving of left-hand and right-only keys. -/
+theorem merge_content_eq_spec (env : Env) (la : Option Str) (l : List (Key × Node)) (par : Node)
+    (r : List (Key × Node)) (m : Node) (h : mergeDicts env (.map la l) par r = .ok m)
+    (hr : (keys r).Nodup) :
+    ∃ es, m = .map la es ∧ (∀ k, k ∉ keys r → lookupKey k es = lookupKey k l) ∧
+      ∀ k rv, lookupKey k r = some rv → Merged env par k (lookupKey k l) rv (lookupKey k es) := by
+  obtain ⟨es, hm, hkeep, _⟩ := lhs_only_content_preserved env la l par r m h
+  obtain ⟨st, hl, hm'⟩ := mergeDicts_shape env la l par r m h
+  subst hm'
+  cases hm
+  refine ⟨_, rfl, hkeep, ?_⟩
+  intro k rv hrv
+  exact dictLoop_look env par r _ _ hl (Disj_nil _ _) hr (by intro k _; simp [keys]) k rv hrv
+
+/-- The recursion of `merge_content_eq_spec`: the merge of a right-hand mapping found under a shared
+key is again `_merge_dicts` (with that mapping as the rule-lookup parent), so the characterisation
+applies at every depth. -/
+theorem mergeVal_map_eq_mergeDicts (env : Env) (lv : Node) (c : Coords) (a : Option Str)
+    (res : List (Key × Node)) :
+    mergeVal env lv c (.map a res) = mergeDicts env lv (.map none res) res := by
+  simp only [mergeVal, mergeDicts]
+  have h := dictWrap_ok lv (dictLoop env (.map none res) res) (dictLoop_nc env (.map none res) res)
+  unfold syncTag
+  cases hd : dictWrap lv (dictLoop env (.map none res) res) with
+  | error e => rfl
+  | ok m => simp only [tagOf_ok_of_container (.inr (.inl (h.2 m hd)))]
+
+/-- At the root: a mapping merged into a mapping is, by the hash policy of the right-hand root,
+the left document, the right document, or `_merge_dicts` of the two. -/
+theorem root_hash_merge (cfg : Config) (la ra : Option Str) (l r : List (Key × Node)) :
+    mergeWith cfg (.map la l) (.map ra r) =
+      match hashMode (prepare cfg (.map ra r)) ⟨.map ra r, none, none⟩ with
+      | .error e => .error e
+      | .ok .left => .ok (.map la l)
+      | .ok .right => .ok (.map ra r)
+      | .ok .deep => mergeDicts (prepare cfg (.map ra r)) (.map la l) (.map ra r) r := by
+  simp only [mergeWith, insertDict]
+  cases hm : hashMode (prepare cfg (.map ra r)) ⟨.map ra r, none, none⟩ with
+  | error e => simp [rootTagSync]
+  | ok mode =>
+    cases mode with
+    | left => simp [rootTagSync, tagOf]
+    | right => simp [rootTagSync, tagOf]
+    | deep =>
+      simp only
+      cases hd : mergeDicts (prepare cfg (.map ra r)) (.map la l) (.map ra r) r with
+      | error e => simp [rootTagSync]
+      | ok m => simp [rootTagSync, tagOf]
+
+/-- The deep-hash theorems at the entry point: `merge_with` of a right-hand mapping document (no
+duplicate keys) into a left-hand mapping document under hashes=DEEP (by rule, command line,
+`[defaults]` or built-in) yields a mapping whose key set is the union, in which keys not named by `r`
+keep their value, keys of `r` hold `Spec.Merged` (right-only: `r`'s value; shared: LEFT / RIGHT /
+recursive merge), and whose key order is `OrderOK`. -/
+theorem merge_with_deep_hash_spec (cfg : Config) (la ra : Option Str) (l r : List (Key × Node)) (m : Node)
+    (h : mergeWith cfg (.map la l) (.map ra r) = .ok m)
+    (hmode : hashMode (prepare cfg (.map ra r)) ⟨.map ra r, none, none⟩ = .ok .deep)
+    (hr : (keys r).Nodup) :
+    ∃ es, m = .map la es ∧
+      (∀ k, k ∈ keys es ↔ k ∈ keys l ∨ k ∈ keys r) ∧
+      (∀ k, k ∉ keys r → lookupKey k es = lookupKey k l) ∧
+      (∀ k rv, lookupKey k r = some rv →
+        Merged (prepare cfg (.map ra r)) (.map ra r) k (lookupKey k l) rv (lookupKey k es)) ∧
+      OrderOK l r es := by
+  rw [root_hash_merge, hmode] at h
+  simp only at h
+  obtain ⟨es1, hm1, hkeys⟩ := hash_deep_keys _ la l _ r m h
+  obtain ⟨es2, hm2, hkeep, hmerged⟩ := merge_content_eq_spec _ la l _ r m h hr
+  obtain ⟨es3, hm3, hord⟩ := merge_order_ok _ la l _ r m h hr
+  subst hm1
+  cases hm2; cases hm3
+  exact ⟨es1, rfl, hkeys, hkeep, hmerged, hord⟩
+
+/-- Well-formedness is closed under the merge: when neither side has duplicate keys the merged
+mapping has none either (so the `Nodup` hypothesis of the theorems above is again available for the
+result, e.g. for the next record merged into the same Array-of-Hashes element). -/
+theorem merge_keys_nodup (env : Env) (la : Option Str) (l : List (Key × Node)) (par : Node)
+    (r : List (Key × Node)) (m : Node) (h : mergeDicts env (.map la l) par r = .ok m)
+    (hl : (keys l).Nodup) (hr : (keys r).Nodup) :
+    ∃ es, m = .map la es ∧ (keys es).Nodup := by
+  obtain ⟨es, hm, h1, h2⟩ := merge_order_ok env la l par r m h hr
+  refine ⟨es, hm, nodup_of_filter (fun k => (keys l).contains k) _ (by rw [h1]; exact hl) ?_⟩
+  rw [h2]
+  exact List.Nodup.sublist List.filter_sublist hr
+
+/-- Under a shared key a right-hand Array is merged by `_merge_lists` (simple lists:
+`array_merge_eq_spec`; Arrays-of-Hashes: `aoh_deep_eq_spec` …). -/
+theorem mergeVal_seq_eq_mergeLists (env : Env) (lv : Node) (c : Coords) (ra : Option Str)
+    (ritems : List Node) :
+    mergeVal env lv c (.seq ra ritems) = mergeLists env lv ra ritems c := by
+  simp only [mergeVal]
+  have h := mergeLists_nc env lv ra ritems c
+  unfold syncTag
+  cases hd : mergeLists env lv ra ritems c with
+  | error e => rfl
+  | ok m => simp only [tagOf_ok_of_container (.inl (h.2 m hd))]
+
+/-- Under a shared key a right-hand Set is merged by `_merge_sets` (`set_merge_eq_spec`). -/
+theorem mergeVal_set_eq_mergeSets (env : Env) (lv : Node) (c : Coords) (ra : Option Str)
+    (rms : List Key) :
+    mergeVal env lv c (.set ra rms) = mergeSets env lv ra rms c := by
+  simp only [mergeVal]
+  have h := mergeSets_ok env lv ra rms c
+  unfold syncTag
+  cases hd : mergeSets env lv ra rms c with
+  | error e => rfl
+  | ok m => simp only [tagOf_ok_of_container (.inr (.inr (h.2 m hd)))]
+
+/-- At the root an Array merged into an Array is `_merge_lists` with the right-hand root's policy. -/
+theorem root_list_merge (cfg : Config) (la ra : Option Str) (l r : List Node) :
+    mergeWith cfg (.seq la l) (.seq ra r) =
+      mergeLists (prepare cfg (.seq ra r)) (.seq la l) ra r ⟨.seq ra r, none, none⟩ := by
+  simp only [mergeWith, insertList]
+  cases hd : mergeLists (prepare cfg (.seq ra r)) (.seq la l) ra r ⟨.seq ra r, none, none⟩ with
+  | error e => simp [rootTagSync]
+  | ok m => simp [rootTagSync, tagOf]
+
+/-- `_merge_lists` of a right-hand list whose first element is not a Hash is `_merge_simple_lists`. -/
+theorem mergeLists_simple (env : Env) (lv : Node) (ra : Option Str) (first : Node) (rrest : List Node)
+    (c : Coords) (hf : isMap first = false) :
+    mergeLists env lv ra (first :: rrest) c = mergeSimple env lv ra (first :: rrest) c := by
+  cases first <;> simp_all [mergeLists, isMap]
+
+/-! ## Array-of-Hashes DEEP merges by identity key -/
+
+/-- **merge_content_eq_spec** (Array-of-Hashes, DEEP): when the first right-hand element is a Hash
+and the applicable AoH policy is DEEP, `_merge_lists` of the right-hand list into a left-hand list
+succeeds with `m` **iff** `m` is the left-hand list after `Spec.AohDeep`: the right-hand records are
+taken in order, each must carry the identity key (`aoh_merge_key` of the first record), and each is
+appended when no element of the list as it then stands has the same identity, else deep-merged
+(`_merge_dicts`) in place into the first element that has.  Both directions: the relation is sound
+and complete for the model. -/
+theorem aoh_deep_eq_spec (env : Env) (la ra : Option Str) (litems : List Node) (fa : Option Str)
+    (fes : List (Key × Node)) (rrest : List Node) (c : Coords) (m : Node)
+    (hmode : aohMode env c = .ok .deep) :
+    mergeLists env (.seq la litems) ra (.map fa fes :: rrest) c = .ok m ↔
+      ∃ out, m = .seq la out ∧
+        AohDeep env (aohMergeKey env ⟨.map fa fes, some (.seq ra (.map fa fes :: rrest)), some (.idx 0)⟩ fes)
+          litems (.map fa fes :: rrest) out := by
+  simp only [mergeLists, hmode]
+  constructor
+  · intro h
+    cases h1 : aohDeepStep env _ litems (.map fa fes) with
+    | error e => rw [h1] at h; cases h
+    | ok l1 =>
+      rw [h1] at h
+      simp only at h
+      cases h2 : aohDeepLoop env _ rrest l1 with
+      | error e => rw [h2] at h; cases h
+      | ok l2 =>
+        rw [h2] at h; cases h
+        exact ⟨l2, rfl, AohDeep.cons _ l1 _ fa fes rrest ((aohDeepStep_iff ..).mp h1)
+          ((aohDeepLoop_iff ..).mp h2)⟩
+  · rintro ⟨out, rfl, h⟩
+    cases h with
+    | cons _ l1 _ _ _ _ hstep hrest =>
+      rw [(aohDeepStep_iff ..).mpr hstep]
+      simp only
+      rw [(aohDeepLoop_iff ..).mpr hrest]
+
+/-- What one `Spec.AohStep` does to the record it touches (the per-key characterisation of
+`merge_content_eq_spec`, by identity key): a right-hand record `{es}` (no duplicate keys) with
+identity value `idv` is either **appended** — no left-hand element has that identity — or the first
+left-hand element with that identity is a Hash `{les}` and is replaced in place by a Hash `{es'}`
+with: key set the union, keys not named by the record keeping their value, keys of the record
+holding `Spec.Merged` (right-only: the record's value; shared: LEFT / RIGHT / recursive merge),
+and `OrderOK les es es'`.  All other elements are untouched. -/
+theorem aoh_deep_step_content (env : Env) (idKey : Key) (litems : List Node) (a : Option Str)
+    (es : List (Key × Node)) (out : List Node) (h : AohStep env idKey litems a es out)
+    (hes : (keys es).Nodup) :
+    ∃ idv, lookupKey idKey es = some idv ∧
+      (((∀ x ∈ litems, recordMatches env idKey (typedNode env idv) x = false) ∧
+          out = litems ++ [.map a es]) ∨
+       ∃ pre la' les post es', litems = pre ++ .map la' les :: post ∧
+          (∀ x ∈ pre, recordMatches env idKey (typedNode env idv) x = false) ∧
+          recordMatches env idKey (typedNode env idv) (.map la' les) = true ∧
+          out = pre ++ .map la' es' :: post ∧
+          (∀ k, k ∈ keys es' ↔ k ∈ keys les ∨ k ∈ keys es) ∧
+          (∀ k, k ∉ keys es → lookupKey k es' = lookupKey k les) ∧
+          (∀ k rv, lookupKey k es = some rv →
+            Merged env (.map a es) k (lookupKey k les) rv (lookupKey k es')) ∧
+          OrderOK les es es') := by
+  cases h with
+  | append idv hid hall => exact ⟨idv, hid, .inl ⟨hall, rfl⟩⟩
+  | merge idv pre lh post m hid e hpre hlh hm =>
+    refine ⟨idv, hid, .inr ?_⟩
+    cases lh with
+    | map la' les =>
+      obtain ⟨es1, hm1, hkeys⟩ := hash_deep_keys env la' les _ es m hm
+      obtain ⟨es2, hm2, hkeep, hmerged⟩ := merge_content_eq_spec env la' les _ es m hm hes
+      obtain ⟨es3, hm3, hord⟩ := merge_order_ok env la' les _ es m hm hes
+      subst hm1
+      cases hm2; cases hm3
+      exact ⟨pre, la', les, post, es1, e, hpre, hlh, rfl, hkeys, hkeep, hmerged, hord⟩
+    | scalar _ _ => simp [recordMatches] at hlh
+    | seq _ _ => simp [recordMatches] at hlh
+    | set _ _ => simp [recordMatches] at hlh
+
+/-- **lhs_only_content_preserved** (Array-of-Hashes, DEEP): a left-hand element whose identity no
+right-hand record carries keeps its value **and its position**; the left-hand list is a positional
+prefix of the result (`litems.length ≤ out.length`), and at most one element per right-hand record
+is added. -/
+theorem aoh_deep_lhs_only_preserved (env : Env) (idKey : Key) (litems ritems out : List Node)
+    (h : AohDeep env idKey litems ritems out) :
+    (∀ (i : Nat) (x : Node), litems[i]? = some x →
+        (∀ a es idv, Node.map a es ∈ ritems → lookupKey idKey es = some idv →
+          recordMatches env idKey (typedNode env idv) x = false) →
+        out[i]? = some x) ∧
+    litems.length ≤ out.length ∧ out.length ≤ litems.length + ritems.length :=
+  ⟨fun i x hx hno => AohDeep_keeps h i x hx hno, AohDeep_length h⟩
+
+/-- **hash_deep_keys** for Array-of-Hashes DEEP (nothing is lost, at key level): every left-hand
+element is still at its position, either unchanged or — a Hash — grown to a Hash with at least its
+keys (`Spec.KeysGrow`); and every right-hand record's keys are all present in some Hash of the
+result (the record itself where it was appended, or the element it was merged into, possibly grown
+further by later records). -/
+theorem aoh_deep_keys (env : Env) (idKey : Key) (litems ritems out : List Node)
+    (h : AohDeep env idKey litems ritems out) :
+    (∀ (i : Nat) (x : Node), litems[i]? = some x → ∃ y, out[i]? = some y ∧ KeysGrow x y) ∧
+    (∀ a es, Node.map a es ∈ ritems →
+      ∃ y ∈ out, ∃ a' es', y = .map a' es' ∧ ∀ k ∈ keys es, k ∈ keys es') :=
+  AohDeep_grows h
 
 /-! ## Witnesses: the hypotheses are met by concrete values, and the interleaving of the design note -/
 
@@ -310,5 +604,37 @@ example : mergeWith { aohCli := some .left } (.map none [(sk "a", i 1)]) (.map n
 example : mergeWith { hashCli := some .deep, rules := [([.key (sk "a")], .left)] }
     (.map none [(sk "a", .map none [(sk "x", i 1)])]) (.map none [(sk "a", .map none [(sk "y", i 2)])])
     = .ok (.map none [(sk "a", .map none [(sk "x", i 1)])]) := by decide +kernel
+
+/-- The hypotheses of `merge_order_ok` / `merge_content_eq_spec` are met by a merge that exercises
+every constructor of `Spec.Merged` but LEFT: `{a: {x: 1}, c: 3} ⊕ {d: 4, a: {y: 2}, c: 5}` is
+`{a: {x: 1, y: 2}, d: 4, c: 5}` (recursive merge under `a`, right-only `d` placed at `a`'s
+right-hand index, right-hand scalar under `c`), and the right-hand keys have no duplicates. -/
+example :
+    let r := [(sk "d", i 4), (sk "a", .map none [(sk "y", i 2)]), (sk "c", i 5)]
+    mergeDicts (prepare {} (.map none r)) (.map none [(sk "a", .map none [(sk "x", i 1)]), (sk "c", i 3)])
+        (.map none r) r
+      = .ok (.map none [(sk "a", .map none [(sk "x", i 1), (sk "y", i 2)]), (sk "d", i 4), (sk "c", i 5)]) ∧
+    (keys r).Nodup := by
+  decide +kernel
+
+/-- hashes=left under a shared key: `Spec.Merged.keepLeft`. -/
+example : mergeWith { rules := [([.key (sk "a")], .left)] }
+    (.map none [(sk "a", .map none [(sk "x", i 1)])]) (.map none [(sk "a", .map none [(sk "y", i 2)]), (sk "b", i 1)])
+    = .ok (.map none [(sk "a", .map none [(sk "x", i 1)]), (sk "b", i 1)]) := by decide +kernel
+
+/-- aoh=deep: `[{id: 1, v: 1}, {id: 2, v: 2}] ⊕ [{id: 2, w: 9}, {id: 3}]` — the record with identity 2
+is merged in place (`Spec.AohStep.merge`), identity 3 is appended (`Spec.AohStep.append`), identity 1
+(named by no right-hand record) keeps its value and position. -/
+example : mergeWith { aohCli := some .deep }
+    (.seq none [.map none [(sk "id", i 1), (sk "v", i 1)], .map none [(sk "id", i 2), (sk "v", i 2)]])
+    (.seq none [.map none [(sk "id", i 2), (sk "w", i 9)], .map none [(sk "id", i 3)]])
+    = .ok (.seq none [.map none [(sk "id", i 1), (sk "v", i 1)],
+        .map none [(sk "id", i 2), (sk "v", i 2), (sk "w", i 9)], .map none [(sk "id", i 3)]]) := by
+  decide +kernel
+
+/-- aoh=deep: a right-hand record without the identity key is a merge error. -/
+example : mergeWith { aohCli := some .deep } (.seq none [.map none [(sk "id", i 1)]])
+    (.seq none [.map none [(sk "id", i 1)], .map none [(sk "x", i 3)]]) = .error .merge := by
+  decide +kernel
 
 end Ypv.C05
